@@ -146,6 +146,8 @@ theorem comment_roundtrip (k : Cls) (hk : SpaceOK k) (tail c t' : List Char)
   unfold commentPut at hp
   split at hp
   · cases hp
+  split at hp
+  · cases hp
   simp only [Bool.false_and, Bool.false_eq_true, if_false] at hp
   generalize hc1 : (if headSpace k c = true then c else ' ' :: c) = c1 at hp
   have hstrip : strip k c1 = strip k c := by
@@ -191,7 +193,9 @@ theorem comment_roundtrip_full (k : Cls) (hk : SpaceOK k) (tail c t' : List Char
   · cases hp
   split at hp
   · cases hp
-  next hne hsh =>
+  split at hp
+  · cases hp
+  next hne hnul hsh =>
   simp only [Bool.true_and, bne_iff_ne, ne_eq, Decidable.not_not] at hsh
   -- the comment is whitespace, `#`, text
   have hc : ∃ text, c = c.takeWhile k.space ++ '#' :: text := by
@@ -236,6 +240,80 @@ theorem commentGet_g1 (k : Cls) (hk : SpaceOK k) (full : Bool) (g : List Char) (
   · have hsp : spanS k (ws ++ [';']) = (ws, [';']) :=
       spanS_append k ws _ hws (by intro c r' e; simp at e; rw [← e.1]; exact hk.semi)
     simp [commentGet, reMatch, reGroup1, reGroup2, hsp, spanS]
+
+/-- characters that keep a physical line one line that CPython can read: no `\n`, no `\r`, no NUL -/
+def lineOK (c : Char) : Bool := c != LF && c != CR && c != NUL
+
+theorem contains_of_not_lineOK (c : List Char) (h : c.all lineOK = false) :
+    (c.contains LF || c.contains CR) = true ∨ c.contains NUL = true := by
+  have hm : LF ∈ c ∨ CR ∈ c ∨ NUL ∈ c := by
+    induction c with
+    | nil => simp at h
+    | cons x c ih =>
+      simp only [List.all_cons, Bool.and_eq_false_iff] at h
+      rcases h with h | h
+      · simp only [lineOK, Bool.and_eq_false_iff, bne_eq_false_iff_eq] at h
+        rcases h with (h | h) | h <;> subst h <;> simp
+      · rcases ih h with h' | h' | h' <;> simp [h']
+  rcases hm with h' | h' | h'
+  · left; simp [h']
+  · left; simp [h']
+  · right; simp [h']
+
+/-- **`put_line_comment` refuses every text that would end the line or make the source unreadable** (`\n`, `\r`, NUL):
+the repaired code raises `ValueError` for all three, whatever the line looks like. -/
+theorem comment_put_refuses (k : Cls) (full : Bool) (tail c : List Char) (h : c.all lineOK = false) :
+    commentPut k full tail c = .valueError := by
+  unfold commentPut
+  rcases contains_of_not_lineOK c h with h' | h'
+  · rw [if_pos h']
+  · split
+    · rfl
+    · rfl
+
+theorem all_take (p : Char → Bool) (l : List Char) (n : Nat) (h : l.all p = true) : (l.take n).all p = true := by
+  rw [List.all_eq_true] at h ⊢
+  intro x hx; exact h x (List.mem_of_mem_take hx)
+
+/-- **A written comment keeps the line one line**: if the text after the statement had no `\n`, `\r`, NUL, then after
+any accepted `put_line_comment` (either `full` mode, old comment or not, semicolon or not) it still has none — the tree
+CPython reads from the new source has the same statements on the same lines. -/
+theorem comment_put_one_line (k : Cls) (full : Bool) (tail c t' : List Char) (ht : tail.all lineOK = true)
+    (hp : commentPut k full tail c = .ok t') : t'.all lineOK = true := by
+  unfold commentPut at hp
+  split at hp
+  · cases hp
+  next h1 =>
+  split at hp
+  · cases hp
+  next h2 =>
+  split at hp
+  · cases hp
+  have hc : c.all lineOK = true := by
+    cases hall : c.all lineOK with
+    | true => rfl
+    | false =>
+      rcases contains_of_not_lineOK c hall with h' | h'
+      · exact absurd h' h1
+      · exact absurd h' h2
+  generalize hc1 : (if full = true then c else if headSpace k c = true then c else ' ' :: c) = c1 at hp
+  have hc1ok : c1.all lineOK = true := by
+    rw [← hc1]; split
+    · exact hc
+    · split
+      · exact hc
+      · simp only [List.all_cons, hc, Bool.and_true]; decide
+  simp only [] at hp
+  split at hp
+  · simp only [PutRes.ok.injEq] at hp
+    rw [← hp, List.all_append, all_take _ _ _ ht, hc1ok]; rfl
+  · split at hp
+    · simp only [PutRes.ok.injEq] at hp
+      rw [← hp, List.all_append, all_take _ _ _ ht]
+      split
+      · simp [hc1ok]
+      · simp only [List.all_cons, hc1ok, Bool.and_true, Bool.true_and]; decide
+    · cases hp
 
 /-- After `put_line_comment(None)` there is no comment. -/
 theorem comment_delete (k : Cls) (hk : SpaceOK k) (full : Bool) (tail : List Char) :
@@ -323,6 +401,9 @@ example : commentGet k0 false " ;  # new # text ".toList = some "new # text".toL
 example : commentPut k0 false "  ".toList "c".toList = .ok "  # c".toList := by decide
 example : commentPut k0 false " ; y = 2".toList "c".toList = .unmodelled := by decide
 example : commentPut k0 true "".toList "c".toList = .valueError := by decide
+example : commentPut k0 false "".toList "a\rb".toList = .valueError := by decide
+example : commentPut k0 true "  # old".toList "# a\x00b".toList = .valueError := by decide
+example : ("  # old".toList).all lineOK = true ∧ commentPut k0 false "  # old".toList "a\x0cb".toList = .ok "  # a\x0cb".toList := by decide
 example : putSlice (putSlice [1, 2, 3, 4, 5] 1 3 []) 1 1 (slice [1, 2, 3, 4, 5] 1 3) = [1, 2, 3, 4, 5] := by decide
 example : subtreeAt (.node 0 [.node 1 [], .node 2 [.node 3 []]]) [1, 0] = some (.node 3 []) := by rfl
 
